@@ -11,4 +11,9 @@ ZOut z_boolop(int ct, int fr, const PathsZ& S, const PathsZ& C, const PathsZ& O,
 ZOut z_offset(const PathsZ& in, double delta, int jt, int et, double ml, double arc, bool rs, int cb);
 ZOut z_rectclip(i64 l, i64 t, i64 r, i64 b, const PathsZ& in, bool lines);
 ZOut z_boolopD(int ct, int fr, const PathsZ& S, const PathsZ& C, int precision, int cb);   // ClipperD, coordinates /4
+// ClipperD history: Execute with a callback installed, SetZCallback(nullptr), Execute again; returns the SECOND result (log = callback calls of the
+// second run, which must be none); ok=false and an empty result when an exception escaped
+ZOut z_boolopD_callback_removed(int ct, int fr, const PathsZ& S, const PathsZ& C, int precision);
+// same for Clipper64: callback installed for the first Execute, removed for the second
+ZOut z_boolop_callback_removed(int ct, int fr, const PathsZ& S, const PathsZ& C);
 }
